@@ -52,9 +52,17 @@ def generate(request: typing.BinaryIO, output: typing.BinaryIO) -> None:
     # This generator uses a slightly different mechanism for determining
     # which files to generate; it tracks at package level rather than file
     # level.
-    package = os.path.commonprefix(
-        [p.package for p in req.proto_file if p.name in req.file_to_generate]
-    ).rstrip(".")
+    # The common prefix is taken over package segments: `foo.v1.alpha` and
+    # `foo.v1.apple` share `foo.v1`, not `foo.v1.a`.
+    package = ".".join(
+        os.path.commonprefix(
+            [
+                p.package.split(".")
+                for p in req.proto_file
+                if p.name in req.file_to_generate
+            ]
+        )
+    )
 
     # Build the API model object.
     # This object is a frozen representation of the whole API, and is sent
